@@ -97,19 +97,21 @@ theorem wrapper_adds_nothing (env : Env) (orc : Nat → Val → Raw) (horc : ∀
       | none => exact hinv
       | some c => rw [checkArguments_some_tc env orc horc f args kw hc c hca]; rfl
 
-/-- `@pedantic def f(a: int) -> int` with a comment mentioning the static needle -/
+/-- a module-level function that really is decorated `@staticmethod @pedantic` (its qualified name has no dot).  The body-text
+    variant of this witness - a comment mentioning `@staticmethod` - is repaired: see `header_flags_ignore_body` (C04). -/
 def witnessStaticText : Fn :=
-  { name := "f", flags := flagsOfSource "f" "@pedantic\ndef f(a: int) -> int:\n    # no @staticmethod here\n    return a\n",
+  { name := "f", flags := flagsOfSource "f" "@staticmethod\n@pedantic\ndef f(a: int) -> int:\n    return a\n",
     qualDotted := false, params := [{ name := 1, kind := .posOrKw, ann := some (.cls 2), dflt := none }], selfName := 0,
     firstIsSelf := false, isBound := false, retAnn := some (.cls 2), genRet := .notGenType, flavour := .sync, mode := .pedantic }
-/-- the region `bodyMentionsStaticmethod`: the keyword call `f(a=1)`, which Python accepts, ends in an IndexError -/
-theorem wrapper_escapes_bodyMentionsStaticmethod :
+/-- the guard `clazzFails = false` of `wrapper_adds_nothing` is needed: for that function the keyword call `f(a=1)`, which
+    Python (3.10+) accepts, ends in an IndexError (`full_name.split('.')[-2]`) -/
+theorem wrapper_escapes_moduleLevelStaticmethod :
     (runCall envW (fun _ _ => .raisedOther) witnessStaticText [] [(1, .lit (.int 1))] (.ret (.lit (.int 1)))).caller = .escape "IndexError" ∧
     witnessStaticText.clazzFails ([] : List Val) = true ∧
     witnessStaticText.binds (fwdPosOf witnessStaticText []).length [1] = true := by decide
 theorem WrapperAddsNothing_full_is_false : ¬ WrapperAddsNothing_full := by
   intro h
-  have w := wrapper_escapes_bodyMentionsStaticmethod
+  have w := wrapper_escapes_moduleLevelStaticmethod
   have := h envW (fun _ _ => .raisedOther) witnessStaticText [] [(1, .lit (.int 1))] (.ret (.lit (.int 1))) (by intro _ _; simp) rfl w.2.2
   rw [w.1] at this; simp [Caller.allowed] at this
 
